@@ -1,4 +1,5 @@
 import LanceModel.C21.MaskLemmas
+import LanceModel.C21.SizeLemmas
 /-!
 # C21 — property theorems
 
@@ -236,6 +237,39 @@ theorem guarantee_preserved (t : TExpr) (h : t.LeavesSound) :
     have b := ihr h.2
     exact or_sound _ _ _ _ a.2 b.2 a.1 b.1
 
+/-! ## Part 4: size is consistent with membership and iteration -/
+
+/-- `RowIdTreeMap::len` counts exactly the ids `row_ids` enumerates, and `RowIdMask::max_len` is an upper bound on
+the number of ids `iter_ids` yields (hence on the number of selected rows): a "maximum" below the real count would
+let callers that cap results by it (KNN late search, FTS flat-search choice) drop matching rows.
+`NoCo`: no bitmap is held in complement form (≥ 2^31 members) — such maps are never enumerated. -/
+theorem size_consistent :
+    (∀ (m : TreeMap) (ids : List Nat), NoCo m → TreeMap.rowIds m = some ids → TreeMap.len m = some ids.length) ∧
+    (∀ (m : Mask) (a : TreeMap) (n : Nat) (ids : List Nat), m.allow = some a → NoCo a →
+        m.maxLen = some n → m.iterIds = some ids → ids.length ≤ n) := by
+  refine ⟨len_eq_rowIds_length, ?_⟩
+  intro m a n ids ha hc hn hi
+  simp only [Mask.maxLen, ha] at hn
+  simp only [Mask.iterIds, ha] at hi
+  cases hr : TreeMap.rowIds a with
+  | none => simp [hr] at hi
+  | some r =>
+    have hl := len_eq_rowIds_length a r hc hr
+    rw [hn] at hl
+    have hnr : n = r.length := by simpa using hl
+    simp only [hr] at hi
+    cases hb : m.block with
+    | none => simp [hb] at hi; subst hi; omega
+    | some b =>
+      simp only [hb] at hi
+      cases hbr : TreeMap.rowIds b with
+      | none => simp [hbr] at hi
+      | some bids =>
+        simp only [hbr, Option.some.injEq] at hi
+        subst hi
+        have := List.length_filter_le (fun x => !bids.contains x) r
+        omega
+
 /-! ## Non-vacuity: concrete states meeting the hypotheses -/
 
 example : Sorted ([(0, .part ⟨false, [1, 2]⟩), (3, .full)] : TreeMap) := by
@@ -254,5 +288,9 @@ example : (TExpr.not (.and (.leaf (.exact (Mask.fromAllowed exA)) (fun x => exA.
   · intro x hx
     simp only [Bool.and_eq_true] at hx
     exact hx.1
+
+/-- a mask with both lists where the block list has ids outside the allow list: `max_len` (2) still bounds `iter_ids` (1 id) -/
+example : (⟨some [(0, .part ⟨false, [1, 2]⟩)], some [(0, .part ⟨false, [2, 7]⟩)]⟩ : Mask).maxLen = some 2 ∧
+    (⟨some [(0, .part ⟨false, [1, 2]⟩)], some [(0, .part ⟨false, [2, 7]⟩)]⟩ : Mask).iterIds = some [1] := by decide
 
 end LanceModel.C21
